@@ -42,10 +42,10 @@ def call_create(timebox=5.0):
     """Lithium().create_temp_dir() under a watchdog; returns ('ok', name) | ('raise', exc) | ('spin',)"""
     from lithium.reducer import Lithium
 
-    lith = Lithium()
     old = signal.signal(signal.SIGALRM, _alarm)
     signal.setitimer(signal.ITIMER_REAL, timebox)
     try:
+        lith = Lithium()
         lith.create_temp_dir()
         return ("ok", str(lith.temp_dir))
     except Spin:
@@ -436,6 +436,53 @@ def init_changes_directory(ctx):
     ctx.nontriv("init-chdir")
 
 
+def constructed_elsewhere(ctx):
+    """the Lithium object is built while the process is in one directory and run after it changed to another (a tool that
+    prepares jobs up front): the temp directory is created in the CURRENT directory of the run; the directory of construction
+    gets nothing"""
+    from lithium.reducer import Lithium
+    from lithium.strategies import Minimize
+    from lithium.testcases import TestcaseLine
+
+    cwd = os.getcwd()
+    a = fresh_dir("c20-built-here")
+    b = fresh_dir("c20-run-here")
+    (a / "tmp1").mkdir()
+    os.chdir(a)
+    try:
+        lith = Lithium()
+        path = b / "tc.txt"
+        path.write_bytes(b"a\nb\nc\n")
+        tc = TestcaseLine()
+        tc.load(path)
+
+        class Test:
+            @staticmethod
+            def interesting(args, prefix):
+                return b"b" in path.read_bytes()
+
+        lith.testcase, lith.condition_script, lith.condition_args, lith.strategy = tc, Test, [], Minimize()
+        os.chdir(b)
+        try:
+            lith.run()
+            err = None
+        except BaseException as exc:  # pylint: disable=broad-except
+            err = exc
+    finally:
+        os.chdir(cwd)
+    ctx.evaluations += 1
+    ctx.bump("constructed-elsewhere")
+    case = dict(via="Lithium.run", built_in="A", run_in="B")
+    if err is not None:
+        ctx.fail("run-raises", f"run() raised {type(err).__name__}: {err}", case)
+    in_a = sorted(os.listdir(a))
+    in_b = sorted(n for n in os.listdir(b) if n.startswith("tmp"))
+    if in_a != ["tmp1"] or os.listdir(a / "tmp1") or in_b != ["tmp1"] or not os.listdir(b / "tmp1"):
+        ctx.fail("wrong-directory", f"object built in A (which holds an older tmp1), run in B: A now holds {in_a}, B holds {in_b} — the run's "
+                 "temp directory belongs into the current directory, lowest free number there", case)
+    ctx.nontriv("constructed-elsewhere")
+
+
 def two_mains(ctx):
     """one Lithium object, two complete command-line runs (`main()`), both without --tempdir: the second run gets a
     directory of its own and the first run's directory stays as it was"""
@@ -476,6 +523,7 @@ def run(ctx) -> int:
     faults(ctx)
     whole_runs(ctx)
     init_changes_directory(ctx)
+    constructed_elsewhere(ctx)
     done = True
     for k, sets, limit in ((2, [(), (1,), (1, 2), (2,), (1, 3)], 1000), (3, [(), (1,), (2,), (1, 2)], 6000),
                            (4, [()] + ([(1,)] if ctx.thorough else []), 40000 if ctx.thorough else 4000)):
